@@ -640,6 +640,24 @@ fn transform_expr(state: &mut State<'_>, scope: &mut Scope, expr: MonoExpr) -> L
                 };
             }
             let func_ty = func_expr.get_ty();
+            // A callee that is not a variable but evaluates to a closure environment
+            // (`make_adder(3)(10)`, `t.0(10)`) is called through the apply function too.
+            if let Some(struct_name) = state.closure_struct_for_ty(&func_ty)
+                && let Some(apply_fn) = state.apply_fn_for_struct(&struct_name)
+            {
+                let apply_fn = apply_fn.to_string();
+                let mut call_args = Vec::with_capacity(args.len() + 1);
+                call_args.push(func_expr);
+                call_args.extend(args);
+                return LiftExpr::ECall {
+                    func: Box::new(LiftExpr::EVar {
+                        name: apply_fn,
+                        ty: func_ty,
+                    }),
+                    args: call_args,
+                    ty,
+                };
+            }
             let call_ty = match func_ty {
                 Ty::TFunc { ref ret_ty, .. } if state.ty_contains_closure(ret_ty) => {
                     *ret_ty.clone()
